@@ -233,7 +233,7 @@ func (c *Ctx) writeThrough(rule string) {
 				}
 			} else if len(cc.Args) == 1 {
 				if u, isu := core.Strip(cc.Args[0]).(*ssa.UnOp); isu && u.Op == token.MUL {
-					if g, isg := u.X.(*ssa.Global); isg && (g == c.P.Global("wire", "sslSupported") || g == c.P.Global("wire", "sslUnsupported")) {
+					if g, isg := u.X.(*ssa.Global); isg && c.isSSLReply(g) {
 						ok, why = true, "one-byte SSL reply "+g.Name()
 					}
 				}
